@@ -380,6 +380,110 @@ impl Run {
         self.stats.parts.push(json!({"part": part, "kind": if exhaustive {"exhaustive"} else {"enumerated"}, "cases": n, "wall_s": t0.elapsed().as_secs_f64()}));
     }
 
+    /// Coverage-guided part: a libFuzzer campaign (cargo-fuzz target built from harness/cgv/fuzz) that decodes
+    /// its input with the same choice-stream decoder and judges it with the same oracle `f` as the random
+    /// parts.  Fixed work (`runs` executions per job); a crash file is re-judged in this process and becomes
+    /// an ordinary violation with a replay file; hangs / OOMs / a missing fuzz binary are notes, never
+    /// violations.
+    pub fn fuzz<F>(&mut self, part: &str, runs: u64, jobs: usize, max_len: usize, f: F)
+    where
+        F: Fn(&[u8]) -> Outcome,
+    {
+        let t0 = Instant::now();
+        let bin = format!("{}/target/fuzz/x86_64-unknown-linux-gnu/release/fuzz_{}", verif_dir(), self.prop.to_lowercase());
+        if !std::path::Path::new(&bin).exists() {
+            eprintln!("note: libFuzzer target {bin} is not built; the coverage-guided part is skipped");
+            self.stats.parts.push(json!({"part": part, "kind": "libfuzzer", "status": "target not built, part skipped"}));
+            return;
+        }
+        let dir = std::env::temp_dir().join(format!("cgv-fuzz.{}.{}", std::process::id(), self.prop));
+        let (corpus, art) = (dir.join("corpus"), dir.join("artifacts"));
+        let _ = std::fs::create_dir_all(&corpus);
+        let _ = std::fs::create_dir_all(&art);
+        // seed corpus: a few byte strings derived from the seed (the decoders accept any bytes) + the empty one
+        let _ = std::fs::write(corpus.join("empty"), b"");
+        for k in 0..16u64 {
+            let mut z = mix64(self.seed ^ hash_str(part) ^ k);
+            let len = 40 + (k as usize * 37) % max_len.max(41).saturating_sub(40);
+            let bytes: Vec<u8> = (0..len)
+                .map(|_| {
+                    z = mix64(z);
+                    (z & 0xff) as u8
+                })
+                .collect();
+            let _ = std::fs::write(corpus.join(format!("seed{k}")), bytes);
+        }
+        let out = std::process::Command::new(&bin)
+            .current_dir(&dir)
+            .arg(format!("-runs={runs}"))
+            .arg(format!("-seed={}", (self.seed % 0x7fff_fffe) + 1))
+            .arg("-len_control=0")
+            .arg(format!("-max_len={max_len}"))
+            .arg(format!("-artifact_prefix={}/", art.to_string_lossy()))
+            .arg("-print_final_stats=1")
+            .arg("-timeout=20")
+            .arg(format!("-jobs={jobs}"))
+            .arg(format!("-workers={jobs}"))
+            .arg(corpus.to_string_lossy().to_string())
+            .env("RUST_BACKTRACE", "0")
+            .output();
+        let mut executed: u64 = 0;
+        if let Ok(rd) = std::fs::read_dir(&dir) {
+            for e in rd.filter_map(|e| e.ok()) {
+                let name = e.file_name().to_string_lossy().to_string();
+                if name.starts_with("fuzz-") && name.ends_with(".log") {
+                    if let Ok(t) = std::fs::read_to_string(e.path()) {
+                        for l in t.lines() {
+                            if let Some(n) = l.strip_prefix("stat::number_of_executed_units:") {
+                                executed += n.trim().parse::<u64>().unwrap_or(0);
+                            }
+                        }
+                    }
+                }
+            }
+        }
+        if let Ok(o) = &out {
+            for l in String::from_utf8_lossy(&o.stderr).lines().chain(String::from_utf8_lossy(&o.stdout).lines()) {
+                if let Some(n) = l.strip_prefix("stat::number_of_executed_units:") {
+                    executed += n.trim().parse::<u64>().unwrap_or(0);
+                }
+            }
+        }
+        let mut crashes = 0;
+        let mut notes: Vec<String> = vec![];
+        let mut best: Option<(Vec<u8>, Failure)> = None;
+        if let Ok(rd) = std::fs::read_dir(&art) {
+            let mut files: Vec<std::path::PathBuf> = rd.filter_map(|e| e.ok()).map(|e| e.path()).collect();
+            files.sort();
+            for p in files {
+                let name = p.file_name().map(|n| n.to_string_lossy().to_string()).unwrap_or_default();
+                let Ok(bytes) = std::fs::read(&p) else { continue };
+                if name.starts_with("crash-") {
+                    crashes += 1;
+                    match f(&bytes) {
+                        Outcome::Fail(fl) => {
+                            if best.as_ref().map(|(b, _)| bytes.len() < b.len()).unwrap_or(true) {
+                                best = Some((bytes, fl));
+                            }
+                        }
+                        _ => notes.push(format!("{part}: crash artifact {name} does not fail when re-judged in this process (bytes {})", hex(&bytes))),
+                    }
+                } else {
+                    notes.push(format!("{part}: libFuzzer reported {name} (hang / memory): inconclusive"));
+                }
+            }
+        }
+        if let Some((bytes, fl)) = best {
+            self.violations.push(Violation { part: part.to_string(), bytes: Some(bytes), failure: fl });
+        }
+        for n in notes.into_iter().take(3) {
+            self.broken.push(n);
+        }
+        self.stats.evaluations += executed;
+        self.stats.parts.push(json!({"part": part, "kind": "libfuzzer (coverage-guided, same decoder and oracle)", "executions": executed, "jobs": jobs, "runs_per_job": runs, "max_len": max_len, "crash_artifacts": crashes, "wall_s": t0.elapsed().as_secs_f64(), "exit_ok": out.map(|o| o.status.success()).unwrap_or(false)}));
+        let _ = std::fs::remove_dir_all(&dir);
+    }
+
     fn close_part_samples(&mut self, part: &str) {
         let ss = std::mem::take(&mut self.stats.samples);
         for s in ss.into_iter().take(6) {
